@@ -154,3 +154,12 @@ Inductive chain_r (redir : nat -> rres) (cur : nat) (m : list obj) : nat -> list
 | chain_r_cons o c nm rest t :
     reach redir cur m o c -> name_of m c = Some nm -> chain_r redir cur m c rest t ->
     chain_r redir cur m o (nm :: rest) t.
+
+Definition good_r (conf : nat -> nat -> bool) (redir : nat -> rres) (cur : nat) (m : list obj) (T : nat)
+           (parts : list (list N)) (s t : nat) : Prop :=
+  chain_r redir cur m s parts t /\ conforms conf m t T = true.
+
+(* names unique among everything reachable from one object by one lookup step (contained and stand-in objects) *)
+Definition unique_on_r (redir : nat -> rres) (cur : nat) (m : list obj) (parts : list (list N)) : Prop :=
+  forall o c1 c2 nm, In nm parts -> reach redir cur m o c1 -> reach redir cur m o c2 ->
+                     name_of m c1 = Some nm -> name_of m c2 = Some nm -> c1 = c2.
